@@ -10,7 +10,7 @@ for i in ids:
         c = claims['checks'][i]
         checks.append(dict(property_id=i, quick_cmd=f"./vcheck {i} --tier quick", thorough_cmd=f"./vcheck {i} --tier thorough",
                            evidence_file=f"/verif/evidence/{i}.json", replay_cmd_template="./vcheck replay {path}", engine="pyvc",
-                           level_claimed=dict(category="proof", text=c['text'], design_ref=c.get('design_ref', 'DESIGN.md section 4 / ' + i)),
+                           level_claimed=dict(category=c.get("category", "proof"), text=c['text'], design_ref=c.get('design_ref', 'DESIGN.md section 4 / ' + i)),
                            level_note=c['note'], technique=c.get('technique', "contract-based deductive verification: sidecar contracts on the real functions, VCs generated from the AST of /repo/src on every run (pyvc), discharged by z3/cvc5; runtime form of the same contracts replays counterexamples")))
 na = [dict(property_id=i, reason=claims['not_applicable'].get(i, "check not built yet (work in progress; DESIGN.md section 4 has the plan)")) for i in ids if i not in claims['checks']]
 m = dict(version=1, setup_cmd=claims['setup_cmd'],
